@@ -1,12 +1,22 @@
 module verif
 
-go 1.19
+go 1.22.0
+
+toolchain go1.23.5
 
 require (
 	github.com/jsightapi/jsight-api-go-library v0.0.0
 	github.com/jsightapi/jsight-schema-go-library v1.0.1-0.20221003140029-c68c810f065f
 )
 
-require github.com/lucasjones/reggen v0.0.0-20200904144131-37ba4fa293bb // indirect
+require (
+	golang.org/x/mod v0.22.0 // indirect
+	golang.org/x/sync v0.10.0 // indirect
+)
+
+require (
+	github.com/lucasjones/reggen v0.0.0-20200904144131-37ba4fa293bb // indirect
+	golang.org/x/tools v0.29.0
+)
 
 replace github.com/jsightapi/jsight-api-go-library => /repo
